@@ -351,6 +351,10 @@ func goroutineTouchesWriter(gs an.GoSite) bool {
 			return true
 		}
 	}
+	// `go c.keepAlive()`: the writer travels inside the receiver (a struct field), the callee writes to it
+	if gs.Callee != nil && gs.Callee.Pkg != nil && gs.Callee.Pkg.Pkg.Path() == pkgTransport && helperTouchesWriter(gs.Callee, 0) {
+		return true
+	}
 	if mc, ok := gs.Go.Call.Value.(*ssa.MakeClosure); ok {
 		for _, b := range mc.Bindings {
 			t := b.Type()
@@ -422,6 +426,38 @@ func c12TerminalOnce(c *Ctx) {
 		for _, b := range do.Blocks {
 			for _, in := range b.Instrs {
 				classify(in, in)
+			}
+		}
+		// a write that a same-package helper performs exactly once per call happens at that helper's call site in Do
+		for _, b := range do.Blocks {
+			for _, in := range b.Instrs {
+				call, ok := in.(*ssa.Call)
+				if !ok {
+					continue
+				}
+				h := call.Call.StaticCallee()
+				if h == nil || h.Pkg == nil || h.Pkg.Pkg.Path() != pkgTransport || len(h.Blocks) == 0 || h == do {
+					continue
+				}
+				for _, hb := range h.Blocks {
+					for _, hin := range hb.Instrs {
+						if !isFprintConst(hin, "event: complete") && !isFprintConst(hin, ":\n\n") {
+							continue
+						}
+						once := !an.CanReach(hin, hin)
+						for _, r := range an.Returns(h) {
+							if h.Recover != nil && r.Block() == h.Recover {
+								continue
+							}
+							if !an.Before(hin, r) {
+								once = false
+							}
+						}
+						if once {
+							classify(hin, in)
+						}
+					}
+				}
 			}
 		}
 		// a write inside a function literal that a same-package helper calls exactly once happens at that helper call
